@@ -586,8 +586,27 @@ def _chan_setcb_atomic():
             return "false"
     t = _src(w)
     need = ["if self._items is None", "items = self._items", "self._items = None", "items.get(block=False)", "_callbacks[self.id] = (callback, endmarker, self._strconfig)",
-            "if not (self._closed or self._receiveclosed.is_set())", "if olditem is ENDMARKER", "items.put(olditem)", "if endmarker is not NO_ENDMARKER_WANTED", "callback(endmarker)", "callback(olditem)"]
+            "if olditem is ENDMARKER", "items.put(olditem)", "if endmarker is not NO_ENDMARKER_WANTED", "callback(endmarker)", "callback(olditem)"]
     return "true" if all(x in t for x in need) else "false"
+
+
+@fact("chan_setcb_handles_concurrent_close", "bool", "false")
+def _chan_setcb_handles_concurrent_close():
+    """setcallback's Empty branch: closed meanwhile (by the receiver's epilogue or close(), which do not hold the receive
+    lock) -> the endmarker is delivered here; otherwise register and, if receiving has finished, whoever pops the
+    registration delivers the endmarker (exactly once).  This makes the unlocked epilogue equivalent to one atomic step."""
+    f = find("gateway_base.py", "Channel.setcallback")
+    hs = [h for n in ast.walk(f) if isinstance(n, ast.Try) for h in n.handlers if "queue.Empty" in _src(h.type)]
+    if len(hs) != 1:
+        return "false"
+    want = ["if self._closed or self._receiveclosed.is_set():\n    if endmarker is not NO_ENDMARKER_WANTED:\n        callback(endmarker)\n    break",
+            "_callbacks[self.id] = (callback, endmarker, self._strconfig)",
+            "if self.gateway._channelfactory.finished:\n    if _callbacks.pop(self.id, None) is not None:\n        if endmarker is not NO_ENDMARKER_WANTED:\n            callback(endmarker)",
+            "break"]
+    ok = [_src(n) for n in hs[0].body] == want
+    fr = _src(find("gateway_base.py", "ChannelFactory._finished_receiving"))
+    ok = ok and fr.index("self.finished = True") < fr.index("self._local_close(id, sendonly=True)")
+    return "true" if ok else "false"
 
 
 @fact("chan_receiver_locked", "bool", "false")
@@ -699,9 +718,9 @@ def _loss_reads_raise_eof_with_text():
 @fact("loss_epilogue_ok", "bool", "false")
 def _loss_epilogue_ok():
     """_thread_receiver: EOFError is remembered in self._error; whatever ended the loop, the epilogue runs
-    _finished_receiving UNDER THE RECEIVE LOCK (the model's LFinish is one step with respect to setcallback),
-    _terminate_execution, close_read, close_write, _receivepool.trigger_shutdown in that order (no statement of the
-    epilogue is inside the try)"""
+    _finished_receiving, _terminate_execution, close_read, close_write, _receivepool.trigger_shutdown in that order, none
+    of them inside the try and none under the receive lock (user code may hold that lock: C11); that the epilogue behaves
+    as ONE step with respect to setcallback is the fact chan_setcb_handles_concurrent_close"""
     f = find("gateway_base.py", "BaseGateway._thread_receiver")
     body = [n for n in _Strip().visit(__import__("copy").deepcopy(f)).body if not isinstance(n, ast.FunctionDef)]
     body = [n for n in body if not (isinstance(n, ast.Assign) and _src(n) == "io = self._io")]
@@ -710,7 +729,7 @@ def _loss_epilogue_ok():
     tr = body[0]
     hs = {_src(h.type): _src(h.body) for h in tr.handlers}
     ok = "EOFError" in hs and "self._error = exc" in hs["EOFError"] and "Exception" in hs and not tr.finalbody and not tr.orelse
-    ok = ok and [_src(n) for n in body[1:]] == ["with self._receivelock:\n    self._channelfactory._finished_receiving()", "self._terminate_execution()", "self._io.close_read()", "self._io.close_write()", "self._receivepool.trigger_shutdown()"]
+    ok = ok and [_src(n) for n in body[1:]] == ["self._channelfactory._finished_receiving()", "self._terminate_execution()", "self._io.close_read()", "self._io.close_write()", "self._receivepool.trigger_shutdown()"]
     return "true" if ok else "false"
 
 
